@@ -128,9 +128,15 @@ pub fn gen_project(rng: &mut Rng) -> ProjSpec {
     let _ = DataModule::table_len;
     let mut files = vec![("lib/types.ak".to_string(), TYPES_MODULE.to_string())];
     let n_modules = 1 + rng.usize_below(2);
+    // Module and validator names that are prefixes / near-duplicates of one another, and nested
+    // module paths: look-ups by (module, validator) must not confuse them.
+    let mut module_names = vec!["pv", "pv_x", "pva", "sub/pv", "sub/pv_x", "p"];
+    rng.shuffle(&mut module_names);
     for m in 0..n_modules {
         let mut s = String::from("use aiken/builtin\nuse types\n\n");
-        let n_validators = 1 + rng.usize_below(2);
+        let n_validators = 1 + rng.usize_below(3);
+        let mut validator_names = vec!["v", "v_a", "va", "v_ab", "w", "v_a_b"];
+        rng.shuffle(&mut validator_names);
         for v in 0..n_validators {
             let n_params = 1 + rng.usize_below(4);
             let mut params = vec![];
@@ -141,7 +147,7 @@ pub fn gen_project(rng: &mut Rng) -> ProjSpec {
                 uses.push(format!("({})", usage.replace("{p}", &format!("p{p}"))));
             }
             let sum = uses.join(" + ");
-            s.push_str(&format!("validator v{m}_{v}({}) {{\n", params.join(", ")));
+            s.push_str(&format!("validator {}({}) {{\n", validator_names[v], params.join(", ")));
             let handlers = 1 + rng.usize_below(3);
             s.push_str(&format!(
                 "  mint(redeemer: Int, _policy_id: Data, _self: Data) {{\n    let _unused = builtin.length_of_bytearray(\"\")\n    redeemer + {sum} > {}\n  }}\n\n",
@@ -161,7 +167,7 @@ pub fn gen_project(rng: &mut Rng) -> ProjSpec {
             }
             s.push_str("  else(_) {\n    fail\n  }\n}\n\n");
         }
-        files.push((format!("validators/pv{m}.ak"), s));
+        files.push((format!("validators/{}.ak", module_names[m]), s));
     }
     files.sort();
     ProjSpec {
